@@ -2,7 +2,7 @@
 CONSTANTS
   MaxH = 4
   MaxVer = 3
-  MaxOps = 12
+  MaxOps = 14
   InitH <- EmptyDB
   Boundary = 99
   Genesis = TRUE
